@@ -224,9 +224,22 @@ CHECKS = {
         "Exact prediction only for mean estimator without filters; with filters/stddev the code must be documented and consistent with the stream.",
         "DESIGN.md §3 C14",
     ),
+    "C20": (
+        "fault_enumeration",
+        "differential trace oracle (in-process vs external-process run) + crash-point injection with the harness owning the kill schedule at message granularity",
+        "Eight configurations (slsqp plain / constrained+masked+speculative / relative perturbations with several samplers and split evaluations, "
+        "nelder-mead with a budget stop, serial and vectorized differential evolution with NaN failures, a TOO_FEW_REALIZATIONS stop, a user abort) run "
+        "in-process and through external/<method> must give identical evaluator requests (bitwise), delivered results and exit codes and leave no "
+        "child process. The optimizer process is killed with SIGKILL and SIGTERM during evaluation j - immediately (parent then fails writing) and "
+        "deferred (frozen, killed while the parent waits for the next request) - for j<3 of one configuration (quick) / every j<8 of four "
+        "configurations (thorough), and the evaluator raises at evaluation j: the step must never report OPTIMIZER_STEP_FINISHED, must return within "
+        "30 s, must leave no running child, and the evaluator's exception must reach the caller.",
+        "Kill points at message granularity only; zombies are not 'running'; the 30 s bound is the only clock-based verdict (300x the poll interval).",
+        "DESIGN.md §3 C20",
+    ),
 }
 
-NOT_YET = "check not built yet in this session (planned, see DESIGN.md §3)"
+NOT_YET = "no check registered"
 
 
 def main() -> None:
